@@ -57,7 +57,7 @@ def check(out, ctx):
             if k > 1:
                 kk = "c06:reentrant-through-leftrec" if c.g.meta.get("corpus") == "memo_reentrant_through_leftrec" else "c06:" + key
                 out.violation(kk, "body of memoized rule %s evaluated %d times at offset %d on %r%s" % (name, k, off, c.inp,
-                              " (the grammar passes OnceWF.well_formed_once: an instance of theorem C06_at_most_once_lr)" if certified else ""),
+                              " (the grammar passes OnceWF.well_formed_once_all: an instance of theorem C06_certified_instances)" if certified else ""),
                               common.case_payload(c, st, rule_evaluated=name, offset=off, times=k, certified_by_well_formed_once=certified))
         if certified and sum(cnt.values()) > len(rules) * (len(c.inp.encode()) + 1):
             out.violation("c06bound:" + key, "more body evaluations (%d) than memoized rules x (input length + 1) on %r" % (sum(cnt.values()), c.inp),
